@@ -416,6 +416,57 @@ fn related_floats(l: Layout, prim: usize) -> Vec<u128> {
     out
 }
 
+/// Integers related to the layout for integer -> fixed conversions: the overflow boundaries +-2^(integer bits - 1),
+/// 2^(integer bits), the extremes of the layout rounded to integers, each with its neighbours, as far as the
+/// integer type holds them (the layout's boundary is a mid-range power of two of the integer type)
+fn related_ints(l: Layout, prim: usize) -> Vec<u128> {
+    let Some(pl) = prim_layout(prim) else { return vec![] };
+    let ib = l.int_bits();
+    let mut out = vec![];
+    let mut seen = std::collections::HashSet::new();
+    let mut targets: Vec<Z> = vec![l.z(l.max_raw()).shr_floor(l.frac), l.z(l.min_raw()).shr_floor(l.frac)];
+    for k in [ib.saturating_sub(1), ib, ib + 1] {
+        if k < 200 {
+            targets.push(Z::pow2(k));
+            targets.push(Z::pow2(k).neg());
+        }
+    }
+    for t in targets {
+        for off in [-2i128, -1, 0, 1, 2] {
+            let z = t.add(Z::from_i128(off));
+            if pl.fits(&z) {
+                let raw = pl.wrap(&z);
+                if seen.insert(raw) {
+                    out.push(raw);
+                }
+            }
+        }
+    }
+    out
+}
+/// Fixed-point values related to the primitive for fixed -> integer / float conversions: the integer type's extremes
+/// and the first integers beyond them, expressed in the layout, with the neighbouring ulps (for a negative value
+/// the floor matters: min - 1 ulp converts to min - 1)
+fn related_fixed(l: Layout, prim: usize) -> Vec<u128> {
+    let Some(pl) = prim_layout(prim) else { return vec![] };
+    let one = Z::from_u128(1);
+    let mut out = vec![];
+    let mut seen = std::collections::HashSet::new();
+    for t in [pl.z(pl.max_raw()), pl.z(pl.max_raw()).add(one), pl.z(pl.min_raw()), pl.z(pl.min_raw()).sub(one), pl.z(pl.max_raw()).add(one).shl(1)] {
+        let base = t.shl(l.frac);
+        for off in [-2i128, -1, 0, 1, 2] {
+            let z = base.add(Z::from_i128(off));
+            if l.fits(&z) {
+                let raw = l.wrap(&z);
+                if seen.insert(raw) {
+                    out.push(raw);
+                }
+            }
+        }
+    }
+    out
+}
+
 fn related_partners(l: Layout, a: u128, prim: usize) -> Vec<u128> {
     let mut v = vec![];
     if let Some(pl) = prim_layout(prim) {
@@ -578,7 +629,7 @@ fn run_layout(e: &Entry, pd: &PrimDom, prop: Prop, tier: Tier) -> JobOut {
         // prim -> fixed
         let any_from = (0..5).chain(12..14).any(|k| selects(prop, k, prim));
         if any_from {
-            let relf = if prim >= 13 { related_floats(l, prim) } else { vec![] };
+            let relf = if prim >= 13 { related_floats(l, prim) } else { related_ints(l, prim) };
             for &b in (if ponly && prim >= 13 { &pd.cmp[prim] } else { &pd.conv[prim] }).iter().chain(relf.iter()) {
                 rep.states += 1;
                 if b != 0 {
@@ -594,7 +645,8 @@ fn run_layout(e: &Entry, pd: &PrimDom, prop: Prop, tier: Tier) -> JobOut {
         // fixed -> prim
         let any_to = (5..10).chain(14..16).any(|k| selects(prop, k, prim));
         if any_to && prim != 12 {
-            for &a in &fd.fixed_conv {
+            let relx = if l.w > 16 { related_fixed(l, prim) } else { vec![] };
+            for &a in fd.fixed_conv.iter().chain(relx.iter()) {
                 rep.states += 1;
                 if a != 0 {
                     rep.nontrivial_states += 1;
